@@ -5,6 +5,7 @@ package server
 // (with its cleaner goroutine running on the bubble's virtual clock) is looked up in it.
 
 import (
+	"encoding/base64"
 	"fmt"
 	mrand "math/rand/v2"
 	"runtime"
@@ -114,6 +115,48 @@ func c08History(t *testing.T, r *vk.Reporter, id string, kind string, rng *mrand
 			}
 		}
 		switch kind {
+		case "scan-race":
+			// a handshake arrives while the clean-up is in the middle of its scan
+			k0 := create(0, "direct")
+			present(k0) // something to scan
+			tick := 12 * time.Hour
+			sleepUntil(tick - 2*time.Second)
+			parked, release := make(chan struct{}), make(chan struct{})
+			var once sync.Once
+			g.mu.Lock()
+			g.nowHook = func() {
+				if calledFrom("UsedRandomCleaner") {
+					first := false
+					once.Do(func() { first = true })
+					if first {
+						close(parked)
+						<-release
+					}
+				}
+			}
+			g.mu.Unlock()
+			k1 := create(0, "direct")
+			sleepUntil(tick + time.Second)
+			select {
+			case <-parked:
+				r.Count("forced_cleanup_scan_windows", 1)
+				pdone := make(chan struct{})
+				go func() { present(k1); close(pdone) }()
+				for i := 0; i < 20000; i++ { // let the presenter reach the replay memory's lock
+					runtime.Gosched()
+				}
+				close(release)
+				<-pdone
+			default:
+				close(release) // the clean-up did not read the clock inside its scan on this tree
+				present(k1)
+			}
+			g.mu.Lock()
+			g.nowHook = nil
+			g.mu.Unlock()
+			time.Sleep(2 * time.Second)
+			present(k1) // the same packet again: must be recognised
+			present(k0)
 		case "boundary":
 			// first sightings just before a clean-up tick, re-presentations just after it
 			tick := time.Duration(12*(1+rng.IntN(3))) * time.Hour
@@ -258,6 +301,9 @@ func TestVerif_C08(t *testing.T) {
 		if i%3 == 0 {
 			kind = "boundary"
 		}
+		if i%6 == 1 {
+			kind = "scan-race"
+		}
 		id := fmt.Sprintf("history/%s/%d", kind, i)
 		if !r.Mine(id) {
 			continue
@@ -357,6 +403,15 @@ func TestVerif_C08(t *testing.T) {
 					mod[rng.IntN(len(mod))] ^= byte(1 << uint(rng.IntN(8)))
 				}
 				try(mod, "random multi-bit variant")
+			}
+			if base.Transport == "cdn" && len(gp.sealed) == 1 {
+				// the top bit of the ephemeral key inside the base64 hidden header
+				rg := gp.sealed[0]
+				if raw, err := base64.StdEncoding.DecodeString(string(gp.first[rg[0]:rg[1]])); err == nil && len(raw) == 96 {
+					raw[31] ^= 0x80
+					mod := append(append(append([]byte{}, gp.first[:rg[0]]...), base64.StdEncoding.EncodeToString(raw)...), gp.first[rg[1]:]...)
+					try(mod, "top bit of the 32-byte ephemeral key (ignored by X25519) flipped inside the hidden header")
+				}
 			}
 			if base.Transport == "cdn" {
 				// header-name case and spacing variants of the HTTP request
